@@ -3,6 +3,8 @@
 mod dump;
 mod history;
 mod io;
+mod kdbx;
+mod keyop;
 mod panicx;
 mod totp;
 mod rng;
@@ -113,6 +115,7 @@ fn main() {
         "ioread" => io::run_read(&mut ctx),
         "iowrite" => io::run_write(&mut ctx),
         "totp" => totp::run(&mut ctx),
+        "key" => keyop::run(&mut ctx),
         "selftest" => ctx.emit(serde_json::json!({"op": "selftest", "real": {"vectors": []}})),
         _ => {
             eprintln!("unknown op {}", op);
